@@ -125,7 +125,7 @@ def cap_cases(ctx, scale=1):
             cs[-1].update({"form": form, "kw": ("explicit", "omit", "positional")[k % 3], "nrand_np": k % 2 == 1})
             k += 1
     # seeded random: stub and real generators, both branches
-    for _ in range(int(ctx.n(12, 320) * scale)):
+    for _ in range(int(ctx.n(12, 240) * scale)):
         ra, dec = _sphere_point(r)
         n = r.choice([1, 2] if ctx.quick() else [1, 2, 3])
         c = {"kind": "cap", "ra": ra, "dec": dec, "rad": _radius(r), "dorot": r.random() < 0.4,
@@ -173,7 +173,7 @@ def box_cases(ctx, scale=1):
         box([a0, a1], [d0, d1], [r.random(), 0.0], [r.random(), 1.0 - 2.0 ** -53], "box/forms/" + form)
         cs[-1].update({"form": form, "kw": ("explicit", "omit", "positional")[k % 3], "nrand_np": k % 2 == 1})
         k += 1
-    for _ in range(int(ctx.n(8, 180) * scale)):
+    for _ in range(int(ctx.n(8, 130) * scale)):
         a0, a1 = sorted((r.random() * 360, r.random() * 360))
         d0, d1 = sorted((r.uniform(-90, 90), r.uniform(-90, 90)))
         n = r.choice([1, 2])
@@ -630,14 +630,14 @@ class SkyDiscrete(ParEntry):
                  "family": "box", "form": form, "kw": r.choice(["explicit", "omit"]), "nrand_np": r.random() < 0.3, "system": "eq"}
             c.update(kw)
             cs.append(c)
-        for _ in range(ctx.n(36, 360)):
+        for _ in range(ctx.n(36, 300)):
             n = r.choice([0, 1, 2, 7, 50])
             (cap if r.random() < 0.6 else box)(n, r.choice(REALS))
         if round == 0:
             for n in (0, 3):                                   # generator omitted
                 cap(n, "none", family="cap/rng-omitted")
                 box(n, "none", family="box/rng-omitted")
-            for n in ((4097,) if ctx.quick() else (4097, 65537, 100003)):
+            for n in ((16385,) if ctx.quick() else (16385, 65537, 100003)):
                 cap(n, r.choice(REALS), family="cap/long", get_radius=True)
                 cap(n, r.choice(REALS), family="cap/long", get_radius=True, dorot=True)
                 box(n, r.choice(REALS), family="box/long")
@@ -845,11 +845,11 @@ class GeneratorEntry(ParEntry):
             # long request (2^k + 1): pairwise monotonicity checker off, value-by-value agreement on
             # long requests (beyond any plausible internal block size): the count is compared here, the Coq term carries the
             # pairs at both ends, around every power of two, at the extremes of the output and at sampled positions
-            for nlong in ((20001,) if ctx.quick() else (20001, 65537, 100003)):
+            for nlong in ((16385,) if ctx.quick() else (16385, 65537, 100003)):      # 2^k + 1: one element beyond every block size 2^j <= 2^k
                 c = one(9, "irregular", "random", fam="long-request")
                 c["long"], c["nodes"], c["long_seed"] = nlong, [], r.randrange(2 ** 31)
                 cs.append(c)
-        for _ in range(ctx.n(24, 900)):
+        for _ in range(ctx.n(24, 600)):
             n = r.choice([3, 4, 6, 10, 25, r.randrange(3, ctx.n(25, 120))])
             cs.append(one(n, r.choice(["uniform", "integers", "irregular"]), r.choice(["flat", "wide", "small-integers", "random"]),
                           mode=r.choice(["table", "table", "func_x", "func_range"]), nus=r.choice([2, 6, 12])))
@@ -1026,7 +1026,7 @@ class CholeskyEntry(ParEntry):
                 c["flat"] = [float(v) for v in np.random.RandomState(c["seed"]).randn(npar * n)]
             cs.append(c)
         apis = ["class", "class_scalar", "func", "func_nomean"]
-        for _ in range(ctx.n(24, 600)):
+        for _ in range(ctx.n(24, 400)):
             one(r.choice([1, 2, 3, 4, 5]), r.choice(apis))
         if round == 0:
             for form in CHOL_COV_FORMS:
@@ -1136,7 +1136,7 @@ class RandomIndices(ParEntry):
                     for unique in (True, False):
                         cs.append({"imax": imax, "nrand": nrand, "unique": unique, "gen": r.choice(["legacy", "new", "seed"]),
                                    "seed": r.randrange(2 ** 31), "family": "small-scope"})
-        for _ in range(ctx.n(60, 600)):
+        for _ in range(ctx.n(50, 400)):
             imax = r.choice([r.randrange(1, 20), r.randrange(1, 1000), r.randrange(1, 10 ** 6)])
             unique = r.random() < 0.6
             nrand = r.choice([0, 1, imax, imax + 1, r.randrange(0, min(imax, 200) + 1), r.randrange(0, 300)])
